@@ -9139,6 +9139,17 @@ func (c *BytecodeCompiler) emitCall(callInfo *vm.CallSiteInfo, location *positio
 }
 
 func (c *BytecodeCompiler) compileCallMethod(receiverType types.Type, name value.Symbol, argCount int, loc *position.Location, tailCall bool) {
+	if c.checker.IsIncremental() {
+		// in the REPL a later input may redefine the method or declare a subclass
+		// that overrides it, so the callee cannot be bound at compile time
+		c.emitCallMethod(
+			vm.NewCallSiteInfo(name, argCount),
+			loc,
+			tailCall,
+		)
+		return
+	}
+
 	var fallback bool
 	var exact bool
 
